@@ -4,9 +4,9 @@ import os
 from vf import Inconclusive, parallel, require_clean, vfj_lines
 
 CLAIM = {
-    "text": "A VT100-subset terminal emulator written in TLA+ (Term.tla: a state machine over the byte stream - UTF-8 runes, wrap flag, LF/CR, ESC[nA, ESC[0K, cursor visibility, zero-width colour sequences) is the reference. TLC exhaustively checks the transcription of multiterm.TermWriter and WriteLineNoWrap composed with it (TermWriter.tla: every update history up to the bound over lines 0..3 and texts {empty, a, abc, coloured ab, multi-byte}, widths 1..4, trimming on/off, LF with and without implied CR) against the screen oracle after EVERY call: each line shows exactly (the width-trimmed visible part of) its latest text, rows above/below untouched, nothing wrapped, no sequence cut, cursor parked below the last line and visible after Close; likewise the buffered writer (TermBuffered.tla) and the trimming law for all token strings (TermTrim_MC). The real code is bound independently of the transcription: the bytes multiterm.New(), the buffered writer from cmd/helpers.BuildVTerm and WriteLineNoWrap really write to file descriptor 1 (TLC-enumerated histories with the model's predicted screens, and seeded random histories up to 200 updates, widths 1..120, gaps, colours, multi-byte runes) are interpreted by the TLA+ emulator in TLC and judged by the same oracle after every update and after Close.",
+    "text": "A VT100-subset terminal emulator written in TLA+ (Term.tla: a state machine over the byte stream - UTF-8 runes, wrap flag, LF/CR, ESC[nA, ESC[0K, cursor visibility, zero-width colour sequences) is the reference. TLC exhaustively checks the transcription of multiterm.TermWriter and WriteLineNoWrap composed with it (TermWriter.tla: every update history up to the bound over lines 0..3 and texts {empty, a, abc, coloured ab, multi-byte}, widths 1..4, trimming on/off, LF with and without implied CR) against the screen oracle after EVERY call: each line shows exactly (the width-trimmed visible part of) its latest text, rows above/below untouched, nothing wrapped, no sequence cut, cursor parked below the last line and visible after Close; likewise the buffered writer (TermBuffered.tla) and the trimming law for all token strings (TermTrim_MC). Colour sequences have no maximal length in the property's domain: TermTrimSgr_MC replaces every colour sequence of every token string by one of n runes (n up to 64 quick / every n in 3..67 thorough: 24-bit colours, stacked attributes, foreground + background) and decides that the oracle, the cut and the resulting terminal row do not depend on n, the writer models are also checked on a pool of texts with 15/18/43-rune sequences (TextsSgr), and the design 'scan for the closing m bounded to k runes' (CutBounded) is refuted by TLC for k = 12, 32 (24, 62) as soon as a longer sequence occurs while it passes when every sequence fits. The real code is bound independently of the transcription: the bytes multiterm.New(), the buffered writer from cmd/helpers.BuildVTerm and WriteLineNoWrap really write to file descriptor 1 (TLC-enumerated histories with the model's predicted screens, and seeded random histories up to 200 updates, widths 1..120, gaps, colours incl. sequences of every length 3..72 runes, multi-byte runes; WriteLineNoWrap with a sequence of every length 3..48 (90) before/inside/after text) are interpreted by the TLA+ emulator in TLC and judged by the same oracle after every update and after Close.",
     "note": "Assumptions: terminal at least as tall as the lines used (no scrolling); every rune one cell wide (no CJK/combining); texts are printable runes plus complete ESC[...m sequences; erase at the deferred-wrap position erases nothing; LF implies CR (tty default) for the verdict; without trimming only texts that fit the width are in the domain of the in-place writer. Exhaustive only within the stated bounds, random beyond. Trusted: the emulator as a faithful model of a terminal, TLC, the fd-level capture of the harness.",
-    "technique": "TLA+ model checking (TLC) of writer-composed-with-terminal-emulator + model-behaviour replay + trace validation of real stdout bytes through the TLA+ emulator",
+    "technique": "TLA+ model checking (TLC) of writer-composed-with-terminal-emulator with a refuted negative control (bounded colour-sequence scan) + model-behaviour replay + trace validation of real stdout bytes through the TLA+ emulator",
 }
 
 WRITER_INVS = "Screen Parked Emulated Belief MaxLineOK"
@@ -33,6 +33,11 @@ def gen_cfg(cols, trims, lines, texts, n):
 TERM_MC = ("SPECIFICATION TermSpec\nCONSTANTS TCols = 2\n TAlphabet = {%s}\n"
            " TMaxBytes = %d\nINVARIANTS TermSane WrapFlagged FeedAgrees ColourZeroWidth EraseOK\nCHECK_DEADLOCK FALSE\n")
 TRIM_MC = "SPECIFICATION TSpec\nCONSTANTS MaxW = %d\n MaxTokens = %d\nINVARIANTS TrimLaw NoWrapLaw\nCHECK_DEADLOCK FALSE\n"
+# colour sequences of any length (TermTrimSgr_MC): ScanBound 0 = the transcription, k > 0 = the design
+# "scan for the closing m bounded to k runes" (negative control)
+SGR_MC = ("SPECIFICATION SSpec\nCONSTANTS MaxW = %d\n MaxTokens = %d\n SgrLens = {%s}\n ScanBound = %d\n"
+          "INVARIANTS %s\nCHECK_DEADLOCK FALSE\n")
+SGR_INVS = "SgrOracleBlind SgrTrimLaw SgrLenIrrelevant SgrNoWrapLaw"
 TRACE_CFG = "SPECIFICATION TSpec\nINVARIANTS Final\nCHECK_DEADLOCK FALSE\n"
 
 
@@ -133,7 +138,8 @@ def check(run):
         "every rune is one cell wide (no CJK / combining characters); texts are printable runes plus complete ESC[...m colour sequences; line indices >= 0",
         "without trimming (AutoTrim off) only texts whose visible length fits the width are in the domain of the in-place writer; for the buffered writer without trimming the output is a pipe (no width)",
         "terminal semantics: a rune written past the last column wraps (flagged); erase-to-end at the deferred-wrap position erases nothing; verdicts use LF-implies-CR (tty default), the model is also checked for raw LF",
-        "B3 bounds: lines 0..3(4), text pool TextsB3(x), widths and history length as listed in tlc_runs",
+        "B3 bounds: lines 0..3(4), text pools TextsB3(x) / TextsSgr, widths and history length as listed in tlc_runs",
+        "a colour sequence is ESC [ (digit | ;)* m of ANY length (the emulator follows up to 96 parameter bytes; longer: inconclusive); exercised up to 72 runes (90 for WriteLineNoWrap in the thorough tier)",
     ]
     run.build_harness()
     all_lines = [0, 1, 2, 3]
@@ -170,17 +176,54 @@ def check(run):
                 raise Inconclusive("%s model suspiciously small: %d states" % (name, r.distinct))
         return rs
 
+    def b3_sgr():
+        """colour sequences of every length: laws on the transcription, the writer models on a pool with long
+        sequences, and the bounded-scan design refuted (harmless while every sequence fits the bound)"""
+        rs = []
+        # quick: token strings of <= 3 tokens x 8 lengths; thorough: <= 3 tokens x every length 3..67 and <= 4 tokens x 13 lengths
+        sgr_runs = [(3, [3, 11, 13, 14, 19, 33, 43, 64])] if quick else \
+                   [(3, list(range(3, 68))), (4, [3, 4, 8, 12, 13, 14, 15, 19, 25, 33, 43, 64, 67])]
+        rs += [("TermTrimSgr_MC", run.tlc("TermTrimSgr_MC", SGR_MC % (5, mt, ",".join(map(str, lens)), 0, SGR_INVS), workers=1, timeout=3000,
+                                           label="TermTrimSgr_MC texts of <= %d tokens, colour sequences of %d lengths up to %d runes" % (mt, len(lens), lens[-1])))
+               for mt, lens in sgr_runs]
+        rs += [
+               ("TermWriter", run.tlc("TermWriter", writer_cfg([1, 2, 3, 4, 7], both, ["TRUE"] if quick else both, [0, 1, 2], "TextsSgr", 3 if quick else 4),
+                                       workers=1 if quick else 2, label="TermWriter long colour sequences (TextsSgr) widths 1..4,7", timeout=3000)),
+               ("TermBuffered", run.tlc("TermBuffered", buffered_cfg([1, 2, 3, 4, 7], [0, 1, 2], "TextsSgr", 3 if quick else 4),
+                                         workers=1 if quick else 2, label="TermBuffered long colour sequences (TextsSgr)", timeout=3000)),
+               ("TermTrimSgr_MC", run.tlc("TermTrimSgr_MC", SGR_MC % (5, 3, "3,11,13", 12, SGR_INVS), workers=1,
+                                           label="TermTrimSgr_MC scan bounded to 12 runes, sequences of at most 13 runes (harmless control: must pass)"))]
+        for name, r in rs:
+            require_clean(run, r, name)
+            if r.distinct < 1000:
+                raise Inconclusive("%s model suspiciously small: %d states" % (name, r.distinct))
+        refuted = []
+        negs = [(12, "3,11,13,14", "SgrTrimLaw"), (12, "19", "SgrNoWrapLaw"), (32, "3,33,43", "SgrTrimLaw")]
+        if not quick:
+            negs += [(12, "3,11,13,14", "SgrNoWrapLaw"), (12, "14", "SgrLenIrrelevant"), (24, "26", "SgrTrimLaw"), (62, "64", "SgrTrimLaw"), (62, "64", "SgrNoWrapLaw")]
+        for bound, ls, inv in negs:
+            if True:
+                r = run.tlc("TermTrimSgr_MC", SGR_MC % (5, 2, ls, bound, inv), workers=1,
+                            label="TermTrimSgr_MC scan bounded to %d runes, lengths {%s} [%s] negative control: must be violated" % (bound, ls, inv))
+                if inv not in r.violated:
+                    raise Inconclusive("negative control passed: scan bounded to %d runes does not violate %s for lengths {%s}\n%s" % (bound, inv, ls, r.out[-2000:]))
+                refuted.append("bounded-scan k=%d lens {%s}: %s" % (bound, ls, inv))
+        run.cov["broken_designs_refuted"] = refuted
+        return rs
+
     def b1():
         """TLC enumerates every history of the model (with the model's screens), the real writer replays them,
         TLC judges the real bytes."""
         if quick:
             gens = [gen_cfg([1, 2, 3, 4], both, all_lines, "TextsB3", 2),
                     gen_cfg([2, 3], ["TRUE"], all_lines, "TextsB3", 3),
-                    gen_cfg([3], ["FALSE"], [0, 1, 2], "TextsB3", 3)]
+                    gen_cfg([3], ["FALSE"], [0, 1, 2], "TextsB3", 3),
+                    gen_cfg([1, 2, 3, 4, 7], both, [0, 1, 2], "TextsSgr", 2)]
         else:
             gens = [gen_cfg([1, 2, 3, 4], both, all_lines, "TextsB3", 3),
                     gen_cfg([2, 3], ["TRUE"], [0, 1, 2], "TextsB3", 4),
-                    gen_cfg([1, 2, 3, 4, 5], both, [0, 1, 2, 3, 4], "TextsB3x", 2)]
+                    gen_cfg([1, 2, 3, 4, 5], both, [0, 1, 2, 3, 4], "TextsB3x", 2),
+                    gen_cfg([1, 2, 3, 4, 5, 7, 9], both, [0, 1, 2], "TextsSgr", 3)]
         vec_path = os.path.join(run.scratch, "c20-vectors.ndjson")
         nvec = 0
         with open(vec_path, "w") as f:
@@ -209,14 +252,14 @@ def check(run):
         if quick:
             args = ["-n", 260, "-long", 3, "-maxlen", 200, "-buf", 100, "-trim", 2000, "-exh", 4]
         else:
-            args = ["-n", 3000, "-long", 30, "-maxlen", 200, "-buf", 800, "-trim", 20000, "-exh", 6]
+            args = ["-n", 3000, "-long", 30, "-maxlen", 200, "-buf", 800, "-trim", 20000, "-exh", 6, "-sgr", 90]
         run.drv(["trace", "-out", tr, "-stats", st] + args)
         stats = json.load(open(st))
         parts = split_trace(tr, 4, run.scratch, "b2")
         results = parallel([lambda p=p, i=i: validate_part(run, p[0], "Term_Trace B2 part %d" % i) for i, p in enumerate(parts)], 4)
         return stats, parts, results
 
-    (_, _, b1res, b2res) = parallel([b3_writer, b3_small, b1, b2], 4)
+    (_, _, _, b1res, b2res) = parallel([b3_writer, b3_small, b3_sgr, b1, b2], 5)
 
     # ------------------------------------------------------------------ verdicts
     for origin, (stats, parts, results) in (("b1", b1res), ("b2", b2res)):
@@ -233,5 +276,6 @@ def check(run):
     run.cov["rule"] = ("B3: all behaviours of TermWriter/TermBuffered composed with the Term emulator within the bounds; "
                        "B1: every model history (TermWriter_Gen) replayed on multiterm.New(), real stdout bytes judged by the emulator "
                        "+ oracle and compared with the model's screen after every call; B2: seeded random histories on the in-place "
-                       "and buffered writers and WriteLineNoWrap calls (exhaustive token strings + random). "
+                       "and buffered writers and WriteLineNoWrap calls (exhaustive token strings + one/two colour sequences of every length 3..48(90) around text + random; "
+                       "a third of the random histories/calls carries long colour sequences). "
                        "non-trivial history = moves the cursor up at least once and rewrites a line")
